@@ -29,6 +29,13 @@ Definition check (c : case) : bool :=
 
 (** ** the property on what was observed *)
 Definition alpha_zero (q : creq) : bool := match cq_alpha q with Some a => PrimFloat.eqb a 0 | None => false end.
+(** the request itself asks for at least as many iterations as the watchdog allows *)
+Definition demands_long (q : creq) : bool :=
+  match cq_mn q, cq_fq q with
+  | Some m, _ => (1000 <=? m)%Z
+  | None, Some f => (1000 <=? f)%Z
+  | None, None => false
+  end.
 Definition status_ok (ep st : N) : bool :=
   match ep with
   | 0 | 1 => N.eqb st 200 || N.eqb st 400 || N.eqb st 415
@@ -84,7 +91,7 @@ Definition holds (c : case) : bool :=
       | C200 _ _ | C400 => true
       | C500 => (* an internal error only where the declarative specification has one (numerically degenerate input) *)
           resp_matches (oapi_spec 1500 default_eps (put_all setup) (to_req q)) C500
-      | CHang => alpha_zero q          (* requests with positive alpha must terminate *)
+      | CHang => alpha_zero q || demands_long q     (* requests with positive alpha must terminate *)
       | CPanic | COther _ => false
       end
   | ORaw ep st js panicked hang same degenerate =>
